@@ -87,14 +87,14 @@ FnAttrs == <<"", " alwaysinline", " argmemonly", " cold", " convergent", " disab
              " returns_twice", " safestack", " sanitize_address", " sanitize_hwaddress", " sanitize_memtag", " sanitize_memory",
              " sanitize_thread", " shadowcallstack", " speculatable", " speculative_load_hardening", " ssp", " sspreq", " sspstrong",
              " strictfp", " uwtable", " willreturn", " writeonly", " alignstack(8)", " allocsize(0)",
-             " vscale_range(1,2)", " vscale_range(2,2)", " \"key\"", " \"key\"=\"a \\22 val\"", " #0", " #0 nounwind #1", " nounwind readonly \"k\"=\"v\" #1">>
+             " vscale_range(1,2)", " vscale_range(2,2)", " \"key\"", " \"key\"=\"a \\22 val\"", " \"key\"=\"\"", " #0", " #0 nounwind #1", " nounwind readonly \"k\"=\"v\" #1">>
 RetAttrs == <<"", "zeroext ", "signext ", "inreg ", "noundef ", "zeroext noundef ">>
 PtrRetAttrs == <<"", "noalias ", "nonnull ", "align 8 ", "dereferenceable(8) ", "dereferenceable_or_null(8) ", "noundef nonnull align 4 ">>
 ParamAttrs == <<"", " zeroext", " signext", " inreg", " noundef", " returned">>
 PtrParamAttrs == <<"", " byval(i32)", " byref(i32)", " preallocated(i32)", " inalloca(i32)", " sret(i32)", " align 8", " noalias",
                    " nocapture", " nofree", " nest", " nonnull", " dereferenceable(8)", " dereferenceable_or_null(8)", " swiftself",
                    " swiftasync", " readnone", " readonly", " writeonly", " noundef", " byval(i32) align 4", " nocapture readonly noalias",
-                   " \"k\"", " \"k\"=\"v\"", " alignstack(8)">>
+                   " \"k\"", " \"k\"=\"v\"", " \"k\"=\"\"", " alignstack(8)">>
 
 FN == Fam("fn",
   "$f = comdat any\n$c = comdat any\n!0 = !{i32 1}\n!1 = !{i32 2}\ndeclare i32 @pers(...)\nattributes #0 = { nounwind }\nattributes #1 = { cold \"a\"=\"b\" }\n",
@@ -144,7 +144,7 @@ CALL == Fam("call",
      Slot("retattr", <<"", "noundef ", "nofpclass(nan) ">>), Slot("as", <<"", "addrspace(0) ">>), Slot("sig", <<"(float, i8*, ...) ", "(float, i8*, ...) ">>),
      Slot("aattr", <<"", " noundef", " inreg">>), Slot("pattr", <<"", " nonnull", " byval(i8)", " nocapture readonly", " align 8", " elementtype(i32)">>),
      Slot("varargs", <<"", ", i32 1", ", i32 signext 1, double 2.0", ", metadata !0">>),
-     Slot("fnattr", <<"", " nounwind", " #0", " nounwind readnone", " \"k\"=\"v\"", " nobuiltin", " noreturn">>),
+     Slot("fnattr", <<"", " nounwind", " #0", " nounwind readnone", " \"k\"=\"v\"", " \"k\"=\"\"", " nobuiltin", " noreturn">>),
      Slot("bundle", <<"", " [ \"deopt\"(i32 1, i8* %p) ]", " [ \"tag\"() ]", " [ \"deopt\"(), \"x\"(float %a) ]", " [ \"gc-live\"(i8* %p) ]">>),
      Slot("md", <<"", ", !foo !0", ", !foo !0, !bar !0">>) >>,
   { <<"tail", "fmf">> },
@@ -381,7 +381,7 @@ MODLVL == Fam("mod",
        "define void ()* @r() {\n  ret void ()* null\n}\n@i = ifunc void (), void ()* ()* @r",
        "define void ()* @r() {\n  ret void ()* null\n}\n@i = weak hidden ifunc void (), void ()* ()* @r",
        "define void ()* @r() {\n  ret void ()* null\n}\n@i = dso_local ifunc void (), void ()* ()* @r, partition \"p\"",
-       "attributes #0 = { nounwind }\nattributes #7 = { \"a\" \"b\"=\"c\" align=8 alignstack=16 uwtable }\ndeclare void @f() #0\ndeclare void @g() #7",
+       "attributes #0 = { nounwind }\nattributes #7 = { \"a\" \"b\"=\"c\" \"e\"=\"\" align=8 alignstack=16 uwtable }\ndeclare void @f() #0\ndeclare void @g() #7",
        "define void @f() unnamed_addr jumptable {\n  ret void\n}",
        "declare void @kr(...)\ndeclare i32 @pers(...)\ndefine void @c(i32 %x, i8* %p, void (i32)* %fp) personality i8* bitcast (i32 (...)* @pers to i8*) {\n  call void bitcast (void (...)* @kr to void (i32, i8*)*)(i32 %x, i8* %p)\n  call void %fp(i32 %x)\n  call void inttoptr (i64 4096 to void (i32)*)(i32 1)\n  %r = call i32 bitcast (void (...)* @kr to i32 (i8*)*)(i8* %p)\n  invoke void bitcast (void (...)* @kr to void (i32)*)(i32 %r)\n          to label %ok unwind label %lp\nok:\n  ret void\nlp:\n  %l = landingpad { i8*, i32 }\n          cleanup\n  ret void\n}",
        "declare void @llvm.dbg.value(metadata, metadata, metadata)\ndefine i32 @f(i32 %a) {\n  %s = add i32 %a, 1\n  call void @llvm.dbg.value(metadata !DIArgList(i32 %a, i32 %s), metadata !0, metadata !DIExpression(DW_OP_LLVM_arg, 0, DW_OP_LLVM_arg, 1, DW_OP_plus))\n  ret i32 %s\n}\ndefine i32 @g(i32 %a) {\n  %s = mul i32 %a, 3\n  call void @llvm.dbg.value(metadata !DIArgList(i32 %a, i32 %s), metadata !0, metadata !DIExpression(DW_OP_LLVM_arg, 0, DW_OP_LLVM_arg, 1, DW_OP_plus))\n  call void @llvm.dbg.value(metadata i32 %a, metadata !0, metadata !DIExpression())\n  ret i32 %s\n}\n!0 = !{}",
